@@ -842,10 +842,21 @@ async fn build_authoritative_response(
         }
     };
 
+    // A referral: the lookup returned the NS RRset of a delegation point (an NS RRset that is
+    // not the zone's own), whatever the query type was. Referrals are not authoritative answers.
+    let is_referral = answers.as_ref().is_some_and(|records| {
+        records.iter().next().is_some_and(|r| {
+            r.record_type() == RecordType::NS && LowerName::from(&r.name) != *handler.origin()
+        })
+    });
+    if is_referral {
+        response_meta.authoritative = false;
+    }
+
     #[cfg_attr(not(feature = "__dnssec"), allow(unused_variables))]
     let (ns, soa) = if let Some(answers) = &answers {
         // SOA queries should return the NS records as well.
-        if query.query_type().is_soa() {
+        if query.query_type().is_soa() && !is_referral {
             // This was a successful authoritative lookup for SOA:
             //   get the NS records as well.
 
@@ -992,12 +1003,6 @@ async fn build_authoritative_response(
         if let Some(adds) = lookup_records.take_additionals() {
             message.additionals.extend(adds.iter().cloned());
         }
-
-        let is_referral = lookup_records.iter().next().is_some_and(|r| {
-            r.record_type() == RecordType::NS
-                && query.query_type() != RecordType::NS
-                && query.query_type() != RecordType::ANY
-        });
 
         if is_referral {
             message.authorities.extend(lookup_records.iter().cloned());
